@@ -147,18 +147,18 @@ Definition ending_of (e : dl_end) : ending := match e with DlOk => EndOk | _ => 
    names cid as the common block and serves getBlocksFromID through the handler; every block of its suffix is valid.
    Then, whatever the length of the suffix (any number of 103-block requests), block sync and — within two rounds —
    fast sync end exactly on the peer's chain. *)
-Lemma honest_sync_ends_on_peer_chain : forall valid rs cs n c pre cid own l tipid fuel th r2,
+Lemma honest_sync_ends_on_peer_chain : forall valid finality rs cs ba n c pre cid own l tipid fuel th r2,
   g0 c = 0%N -> ids c = pre ++ cid :: l ++ [tipid] -> ~ In tipid l ->
-  chain n = pre ++ cid :: own -> ~ In cid pre -> finalized n <= length pre ->
+  chain n = pre ++ cid :: own -> ~ In cid pre -> finalized n <= length pre -> (forall c', finality c' <= finalized n) ->
   all_valid valid (pre ++ [cid]) (l ++ [tipid]) -> length l < fuel ->
   let '(delivered, e) := download (honest_resp c (length pre)) 0 fuel (length pre) (length pre + length l + 1) tipid [] in
-  block_sync valid n (Some cid) (map snd delivered) (ending_of e) =
+  block_sync valid finality n (Some cid) (map snd delivered) (ending_of e) =
     ({| chain := ids c; temp := []; finalized := finalized n; banned := banned n |}, Synced) /\
   (length own <= r2 -> length pre <= th -> th - length pre <= r2 -> (N.of_nat th < 4294967296)%N ->
-   fast_sync valid rs cs n (Some cid) (map snd delivered) (ending_of e) th r2 =
+   fast_sync valid finality rs cs ba n (Some cid) (map snd delivered) (ending_of e) th r2 =
     ({| chain := ids c; temp := []; finalized := finalized n; banned := banned n |}, Synced)).
 Proof.
-  intros valid rs cs n c pre cid own l tipid fuel th r2 Hg Hids Hnt Hc Hn Hf Hv Hfuel.
+  intros valid finality rs cs ba n c pre cid own l tipid fuel th r2 Hg Hids Hnt Hc Hn Hf Hq Hv Hfuel.
   assert (Hsk : skipn (S (length pre)) (ids c) = l ++ [tipid]) by (rewrite Hids; apply skipn_mid).
   pose proof (honest_download_delivers_suffix c (length pre) l tipid fuel Hsk Hnt Hfuel) as Hd.
   rewrite Hg in Hd. cbn [N.to_nat Nat.add] in Hd. rewrite Hd. rewrite delivered_ids, Hsk. cbn [ending_of]. rewrite Hids. split.
@@ -237,3 +237,15 @@ Section Search.
   Example search_start_wraps : sub32 (last (height_with_gap 4 0 4 10) 0) 4 = 4294967292.
   Proof. vm_compute. reflexivity. Qed.
 End Search.
+
+(* [honest_resp] is the getBlocksFromID handler: on a well-formed chain the k-th answer is what [bfi] returns for the block
+   at index i + 103 k *)
+Lemma honest_resp_is_bfi : forall (c : Handlers.chain) i k x,
+  wf_chain c -> Handlers.index_of x (ids c) = Some (i + 103 * k) ->
+  match bfi c (Some (x, true)) with
+  | BBlocks l => honest_resp c i k = Some (map to_nat_blk l)
+  | _ => False
+  end.
+Proof.
+  intros c i k x Hwf Hi. rewrite (blocks_from_id_consecutive_capped c x (i + 103 * k) Hwf Hi). reflexivity.
+Qed.
